@@ -296,7 +296,8 @@ func (el *HTMLElement) GetChildNode(_ context.Context, idx values.Int) (core.Val
 
 func (el *HTMLElement) QuerySelector(_ context.Context, selector drivers.QuerySelector) (core.Value, error) {
 	if selector.Kind() == drivers.CSSSelector {
-		selection := el.selection.Find(selector.String())
+		// a single element: the first match in document order, not the whole selection
+		selection := el.selection.Find(selector.String()).First()
 
 		if selection.Length() == 0 {
 			return values.None, drivers.ErrNotFound
@@ -451,7 +452,7 @@ func (el *HTMLElement) GetInnerHTMLBySelectorAll(ctx context.Context, selector d
 
 func (el *HTMLElement) GetInnerTextBySelector(ctx context.Context, selector drivers.QuerySelector) (values.String, error) {
 	if selector.Kind() == drivers.CSSSelector {
-		selection := el.selection.Find(selector.String())
+		selection := el.selection.Find(selector.String()).First()
 
 		if selection.Length() == 0 {
 			return values.EmptyString, drivers.ErrNotFound
